@@ -233,7 +233,15 @@ INPUTS_THOROUGH = INPUTS_QUICK + [
 ]
 
 
+_ARG_CACHE: dict = {}
+
+
 def make_args(inp):
     """Fresh Python arguments for one call (lists are rebuilt every time)."""
-    u, v, us, n = inp
-    return (float(Fraction(u)), float(Fraction(v)), [float(Fraction(e)) for e in us], int(n))
+    key = (inp[0], inp[1], tuple(inp[2]), inp[3])
+    c = _ARG_CACHE.get(key)
+    if c is None:
+        u, v, us, n = inp
+        c = (float(Fraction(u)), float(Fraction(v)), tuple(float(Fraction(e)) for e in us), int(n))
+        _ARG_CACHE[key] = c
+    return (c[0], c[1], list(c[2]), c[3])
